@@ -168,6 +168,12 @@ def run(res, b, tier, seed):
     for form in END_FORMS:
         end_forced.add(len(progs))
         progs.append(END_PRELUDE + form + "\n")
+    # ... and an IMPORT as the last statement: a file that consists of its import section only (fix 7299276: a single import in front of the
+    # end of the file, without a final line break, was rejected - evaluateImport consumed the end-of-file token)
+    for form in ('import "strings"', 'import s "strings"', 'import "strings"\nimport o "os"', 'import (\n\t"strings"\n)', 'import (\n\ts "strings"\n\t"os"\n)',
+                 '// a library\n\nimport "strings"'):
+        end_forced.add(len(progs))
+        progs.append(form + "\n")
     srcs = [p.encode() for p in progs]
     traces = trace(b, srcs)
     k = 6 if quick else 10
